@@ -66,7 +66,7 @@ def parseOp (env : Env) (line : String) : Option (Option Op × String) :=
       pure (some (.restoreH h s (op == "frestoreh") j), "")
     else none
   | [op, hs, x] =>
-    if op == "clone" then do
+    if op == "clone" || op == "clonefrom" then do
       let h ← hs.toNat?; let j ← x.toNat?
       pure (some (.clone h j), "")
     else if op == "fin" then do
